@@ -192,7 +192,13 @@ ESF_CELLS = [
     dict(name="FL_light EM FFNS3 pto2", obs="FL_light", process="EM", pid=11, scheme="FFNS", nf=3, ZMq=(False, False, False), pto=2),
     dict(name="F2_charm NC FONLL pto1", obs="F2_charm", process="NC", pid=11, scheme="FONLL-FFNS", nf=3, ZMq=(False, True, True), pto=1),
     dict(name="g1_charm NC FFNS3 pto1", obs="g1_charm", process="NC", pid=11, scheme="FFNS", nf=3, ZMq=(False, False, False), pto=1),
+    # charged current: no pair threshold, but every heavy channel (also the LO delta) is convolved at the slow-rescaling point
+    dict(name="F2_charm CC FFNS3 pto1", obs="F2_charm", process="CC", pid=12, scheme="FFNS", nf=3, ZMq=(False, False, False), pto=1, cc=True),
+    dict(name="F3_total CC FFNS3 pto0", obs="F3_total", process="CC", pid=-12, scheme="FFNS", nf=3, ZMq=(False, False, False), pto=0, cc=True),
 ]
+
+
+CHI_LOG = []  # (class, order, convolution point handed to the quadrature, mass) of the last esf_heavy_nc_calls
 
 
 def esf_heavy_nc_calls(ctx, cell, x, Q2, m2c):
@@ -201,6 +207,7 @@ def esf_heavy_nc_calls(ctx, cell, x, Q2, m2c):
     from yv.props import c01
 
     e, records, basis = c01.run_assembly(ctx, cell, cm.ew_params(values={}), x, Q2, m2c, "t")
+    del CHI_LOG[:]
     out, ri = [], 0
     for k in cf.Combiner(e).collect_elems():
         for o in e.orders:
@@ -213,6 +220,7 @@ def esf_heavy_nc_calls(ctx, cell, x, Q2, m2c):
                     out.append((type(k.coeff), o, None, None))
                     continue
                 out.append((type(k.coeff), o, records[ri]["rsl"], getattr(k.coeff, "m2hq", None)))
+                CHI_LOG.append((type(k.coeff), o, records[ri]["chi"], getattr(k.coeff, "m2hq", None)))
                 ri += 1
     return out, len(records) == ri
 
@@ -236,6 +244,23 @@ def replay_esf_threshold(args):
     return False, "nothing convolved below the threshold"
 
 
+def replay_esf_complete(args):
+    """float run of the real compute_local: every (kernel, order) with a coefficient function is handed to the convolution, heavy CC channels at x(1+m2/Q2)"""
+    cell = [c for c in ESF_CELLS if c["name"] == args["cell"]][0]
+    with cm.fixed_nf():
+        calls, complete = esf_heavy_nc_calls(None, cell, args["x"], args["Q2"], args["m2c"])
+        log = list(CHI_LOG)
+    if not complete or any(rsl is None for _, _, rsl, _ in calls):
+        return True, (f"{cell['name']} at x={args['x']}, Q2={args['Q2']}, m2c={args['m2c']}: compute_local hands {sum(r is not None for _, _, r, _ in calls)} coefficient functions to the "
+                      f"convolution, the kernel list has {len(calls)} (a contribution is assembled without the convolution at its evaluation point)")
+    for c, o, chi, m2 in log:
+        if m2 is not None and ".heavy." in c.__module__ and c.__module__.endswith("_cc"):
+            want = args["x"] * (1 + float(m2) / args["Q2"])
+            if abs(float(chi) - want) > 1e-12 * want:
+                return True, f"{cell['name']}: {c.__name__}/o{o} convolved at {float(chi)!r}, slow-rescaling point is {want!r}"
+    return False, "every coefficient function is convolved, heavy CC ones at x(1+m2/Q2)"
+
+
 def _esf_bad(calls, args):
     w2 = args["Q2"] * (1 - args["x"]) / args["x"]
     bad = [f"{c.__module__.split('.')[-1]}.{c.__name__}/o{o} (m2={float(m2):g})" for c, o, rsl, m2 in calls
@@ -244,7 +269,7 @@ def _esf_bad(calls, args):
     return bad
 
 
-REPLAYERS = {"esf_threshold": replay_esf_threshold, "wiring": replay_wiring, "hadronic": replay_hadronic, "partonic": replay_partonic, "cc_point": replay_cc_point,
+REPLAYERS = {"esf_complete": replay_esf_complete, "esf_threshold": replay_esf_threshold, "wiring": replay_wiring, "hadronic": replay_hadronic, "partonic": replay_partonic, "cc_point": replay_cc_point,
              "empty_domain": replay_empty_domain}
 
 
@@ -409,7 +434,7 @@ def run(chk, only=None):
                     Q2 = ctx.var("Q2", 0, None, wlo=30, whi=90)
                     m2c = ctx.var("m2c", 0, None, wlo=1, whi=3)
                     calls, complete = esf_heavy_nc_calls(ctx, cell, x, Q2, m2c)
-                    return calls, complete, x, Q2, m2c
+                    return calls, complete, x, Q2, m2c, list(CHI_LOG)
 
                 ex = explore.Explorer(ctx, max_paths=16, timeout_ms=5000)
                 paths = ex.run(body)
@@ -421,7 +446,24 @@ def run(chk, only=None):
                         if not isinstance(p.value, ValueError):
                             chk.notes.append(f"{cname}/path{i}: raises {type(p.value).__name__}: {str(p.value)[:80]} (C16)")
                         continue
-                    calls, complete, x, Q2, m2c = p.value
+                    calls, complete, x, Q2, m2c, chilog = p.value
+                    # completeness: the kernel list (recomputed through the real Combiner) and the coefficient functions handed to the convolution
+                    # correspond one to one -- nothing is assembled without going through the convolution at its evaluation point
+                    chk.obligations += 1
+                    chk.evaluations += 1
+                    rp_c = ("esf_complete", dict(cell=cell["name"], **vals(ctx, None, ("x", "Q2", "m2c"))))
+                    if complete and all(rsl is not None for _, _, rsl, _ in calls):
+                        chk.discharged += 1
+                    else:
+                        chk.report(f"esf:complete:{cell['name']}", f"{cname}/path{i}: compute_local does not hand every coefficient function of the kernel list to the convolution",
+                                   *rp_c)
+                        continue
+                    for c, o, chi, m2 in chilog:
+                        if m2 is not None and ".heavy." in c.__module__ and c.__module__.endswith("_cc"):
+                            nclaims += 1
+                            chk.prove(f"{cname}/path{i}: {c.__name__}/o{o} convolved at x(1+m2/Q2)", S.lift(chi).t == (x * (1 + S.lift(m2) / Q2)).t, ctx.facts() + p.pc,
+                                      key=f"esf:ccpoint:{c.__name__}:o{o}", replay=lambda m, ctx=ctx, cell=cell: ("esf_complete", dict(cell=cell["name"], **vals(ctx, m, ("x", "Q2", "m2c")))),
+                                      what=f"{cname}: compute_local convolves {c.__name__}/o{o} away from the slow-rescaling point")
                     for c, o, rsl, m2 in calls:
                         if rsl is None or m2 is None or not (".heavy." in c.__module__ and c.__module__.endswith("_nc")):
                             continue
@@ -434,7 +476,7 @@ def run(chk, only=None):
                                   ctx.facts() + p.pc, key=f"esf:{c.__module__.split('.')[-1]}.{c.__name__}:o{o}",
                                   replay=lambda m, ctx=ctx, cell=cell: ("esf_threshold", dict(cell=cell["name"], **{k: v for k, v in vals(ctx, m, ("x", "Q2", "m2c")).items()})),
                                   what=f"{cname}: compute_local convolves {c.__name__}/o{o} at or below the hadronic pair threshold")
-                if not (seen["nonempty"] and seen["empty"]):
+                if not cell.get("cc") and not (seen["nonempty"] and seen["empty"]):
                     chk.inconclusive_note(f"{cname}: vacuity -- paths above/below the threshold not both reached ({seen})")
         chk.section("through_esf", cells=len(ESF_CELLS), claims=nclaims)
     # ---- charged current: slow rescaling point and empty domain ----
